@@ -1,6 +1,8 @@
 package main
 
 import (
+	"verif/shim/vsched"
+	"net/http"
 	"context"
 	"crypto"
 	"crypto/hmac"
@@ -327,7 +329,7 @@ func c02Proc(c c02Case, rep *Report) (status uint32, answered bool, ended bool, 
 
 func c02(env *Env, rep *Report) {
 	rep.Rule = "from a token minted by the real GeneratePAAToken in this run: every single-character substitution at every position with each of 67 characters; every single-bit flip of the decoded header, payload and signature; every truncation; segment counts 0..6 and arbitrary strings; re-signing (alg none unsecured / with MAC, HS384, HS512, HS256 under 5 other keys, RS256, embedded JWK, crit / b64 headers); claims signed with the right key (8 issuers, exp x nbf and exp x iat over {absent, now-1h, now-70s, now-50s, now, now+50s, now+70s, now+1h}, odd exp types, unknown / empty access token); JSON flattened / general serialisation and nested JWS; x identity-provider behaviours {honours, unknown, revoked, 500, transport error}. " +
-		"Every string goes to security.CheckPAACookie; every string of the non-mutation classes and every 7th mutation (thorough: all) additionally travels UTF-16 encoded in a TUNNEL_CREATE packet through the real Processor wired as main.go does. Plus histories in one process: the same minted cookie presented repeatedly while the IdP changes between honouring, revoking, failing and recovering (7 sequences, checker and Processor): every presentation must follow the IdP's verdict at that moment. Oracle (three-valued, computed with crypto/hmac over the raw text): must-refuse strings must be refused (at the Processor: status E_PROXY_COOKIE_AUTHENTICATION_ACCESS_DENIED, tunnel ended, next packet unanswered), the minted token must be accepted, the rest is unspecified. distinct_nontrivial = distinct cookie strings x IdP behaviours."
+		"Every string goes to security.CheckPAACookie; every string of the non-mutation classes and every 7th mutation (thorough: all) additionally travels UTF-16 encoded in a TUNNEL_CREATE packet through the real Processor wired as main.go does. Plus, after another connection was accepted with the minted cookie, TUNNEL_CREATE packets that announce a cookie of that length (half, +-2, double) and carry none or only a prefix of its bytes (3 transports). Plus histories in one process: the same minted cookie presented repeatedly while the IdP changes between honouring, revoking, failing and recovering (7 sequences, checker and Processor): every presentation must follow the IdP's verdict at that moment. Oracle (three-valued, computed with crypto/hmac over the raw text): must-refuse strings must be refused (at the Processor: status E_PROXY_COOKIE_AUTHENTICATION_ACCESS_DENIED, tunnel ended, next packet unanswered), the minted token must be accepted, the rest is unspecified. distinct_nontrivial = distinct cookie strings x IdP behaviours."
 	rep.Assumptions = append(rep.Assumptions, "expiry boundary cases keep 10 s distance from the 60 s leeway (no sub-second wall-clock oracle)", "a signature segment that base64-decodes to the same 32 bytes is the same signature (classified by decoded value)",
 		"identity provider is a scripted http.RoundTripper behind the real go-oidc provider object")
 	InstallIdP()
@@ -459,6 +461,68 @@ func c02(env *Env, rep *Report) {
 		rep.outcome(fmt.Sprintf("clock history -> %v", got))
 		if fmt.Sprint(got) != "[true true false true false false]" {
 			rep.violate("C02/expiry-not-judged-against-the-current-time", fmt.Sprintf("cookie minted at t0 checked at t0, t0+4m, t0+7m, cookie minted at t0+7m checked then, both at t0+27m: accepted=%v, want [true true false true false false]", got), map[string]any{"noreplay": true})
+		}
+	}
+	// non-initial state: after another connection presented the minted cookie and was accepted, a TUNNEL_CREATE
+	// that announces a cookie of that length (or half, or one byte less) and carries none or only a prefix of its
+	// bytes must be refused like any other cookie that is not the minted one
+	if env.Shard == 0 {
+		vclock.Reset()
+		idp := InstallIdP()
+		idp.Mode = "honour"
+		ctx, _ := c02Ctx()
+		valid, _ := security.GeneratePAAToken(ctx, "alice", hostA+":3389")
+		vb := tsgu.UTF16Z(valid)
+		type hv struct {
+			name     string
+			declared int
+			carried  []byte
+		}
+		var hvs []hv
+		for _, d := range []int{len(vb), len(vb) - 2, len(vb) / 2, len(vb) + 2, 2 * len(vb)} {
+			for _, c := range []int{0, 2, len(vb) / 2, len(vb) - 20} { // never the whole cookie text (its last 2 bytes are only the terminator)
+				if c < d && c <= len(vb) {
+					hvs = append(hvs, hv{fmt.Sprintf("declared=%d/carried=%d", d, c), d, vb[:c]})
+				}
+			}
+		}
+		for _, kind := range []string{"proc-fresh", "ws", "legacy"} {
+			for _, h := range hvs {
+				g := GwCfg{TokenAuth: true, HostSelection: "roundrobin", Hosts: []string{hostA + ":3389"}, VerifyIP: true}
+				cfg := SeqCfg{Gw: g, Kind: strings.TrimSuffix(kind, "-fresh"), User: "", ClientIP: "10.0.0.1", RemoteAddr: "10.0.0.1:50000", Accept: func(string) bool { return true }}
+				if kind != "proc-fresh" {
+					cfg.Prelude = func(w *World, hd http.Handler, gw *protocol.Gateway) {
+						id := NewIdentity("", "10.0.0.1", "10.0.0.1:50000")
+						c, ok := w.OpenTunnel("ws", hd, gw, "conn-0", "10.0.0.1:50000", id, nil)
+						if !ok {
+							return
+						}
+						for _, p := range [][]byte{tsgu.Handshake(1, 0, 0, tsgu.ExtAuthPAA), tsgu.TunnelCreate(valid, true)} {
+							c.SendSegment(p)
+							vsched.WaitIdle()
+						}
+					}
+				}
+				res := RunSeq(cfg, []Seg{{Bytes: tsgu.Handshake(1, 0, 0, tsgu.ExtAuthPAA)}, {Bytes: tsgu.TunnelCreateRaw(0x3f, 1, h.declared, h.carried, true)}, {Bytes: tsgu.TunnelAuth("pc")}})
+				distinct++
+				rep.add("executions", 1)
+				rep.add("transitions", int64(res.StepsRun))
+				if len(res.Panics) > 0 {
+					rep.violate("C02/panic/hollow-cookie", res.Panics[0].Value, map[string]any{"noreplay": true})
+					continue
+				}
+				if len(res.Steps) < 2 {
+					continue
+				}
+				st := uint32(0xFFFFFFFF)
+				if len(res.Steps[1].Resps) == 1 {
+					st = tsgu.ParseResp(res.Steps[1].Resps[0]).Status
+				}
+				rep.outcome(fmt.Sprintf("hollow %s status=%#x", kind, st))
+				if st == 0 {
+					rep.violate("C02/must-refuse-cookie-accepted-by-processor/hollow-cookie/"+kind, fmt.Sprintf("%s: TUNNEL_CREATE announcing %d cookie bytes and carrying %d of the accepted cookie's bytes answered with success (the accepted cookie is %d bytes)", kind, h.declared, len(h.carried), len(vb)), map[string]any{"noreplay": true})
+				}
+			}
 		}
 	}
 	for k, v := range counts {
